@@ -66,14 +66,16 @@ def run(tier):
     # ---- produce the batch of real images ----------------------------------------------------------------
     scen = [(s, []) for s in gen.standard_scenarios(work, rng, bs=4096)] + c01.boundary_scenarios(work, rng, tier)
     comps = ["gzip", "xz", "lz4", "zstd", "lzma"]
-    optsets = [[], ["-e"], ["-T"], ["-b", "131072"], ["-B", "65536"], ["-j", "4"]]
+    optsets = [[], ["-e"], ["-T"], ["-b", "131072"], ["-B", "65536"], ["-j", "4"], ["-X", "@"], ["-e", "-X", "@"]]
+    XOPT = {"gzip": "level=3,window=10,huffman,default", "xz": "dictsize=8192,x86,level=1", "lz4": "hc", "zstd": "level=7", "lzma": "dictsize=8192,lc=1,lp=1,pb=1"}
     jobs = []
     for si, (s, base) in enumerate(scen):
         for k in range(2 if tier == "quick" else 5):
             opts = optsets[(si + 2 * k) % len(optsets)]
             if "-b" in base and "-b" in opts:
                 opts = []
-            jobs.append(("gensquashfs", s, base + opts, comps[(si + k) % len(comps)], None))
+            comp_ = comps[(si + k) % len(comps)]
+            jobs.append(("gensquashfs", s, base + [XOPT[comp_] if o == "@" else o for o in opts], comp_, None))
     for name, data in gen.standard_tars(rng):
         for comp in comps[:4] if tier == "quick" else comps:
             jobs.append(("tar2sqfs", name, ["-e"] if comp == "xz" else [], comp, data))
@@ -146,6 +148,7 @@ def run(tier):
             "EntryPointsNowhere": ("DirEnt", lambda e: e.update(resolves=False)),
             "IdIndexOutOfRange": ("Inode", lambda e: e.update(uid_idx=65000)),
             "IndexNamesWrongBlock": ("DirIndex", lambda e: e.update(block_matches=False)),
+            "OptionsFlagWithoutBlock": ("Super", lambda e: e.update(flags=sorted(set(e["flags"]) ^ {"COMP_OPTS"}))),
             "NotPadded": ("Super", lambda e: e.update(file_len_mod4k=123)),
             "TablesOutOfOrder": ("Super", lambda e: e.update(table_order=list(reversed(e["table_order"])))),
             "BasicInodeForLargeFile": ("Inode", lambda e: e.update(needs_ext=True, ext=False) if e["type"] == "file" else e.update(num=0))}
